@@ -23,8 +23,9 @@ ENTRY = dict(
                    "appended suffix and the three refusal classes; the dummy measurement decodes to +1. The step from the instruction suffix to "
                    "outcome statistics is NOT proved: c11_expectation (decoded value = expectation value of every member) is conditional on the "
                    "Born/Heisenberg hypothesis, a Section hypothesis shown satisfiable by exact state-vector arithmetic on a concrete entangled "
-                   "two-qubit state. The model is run against the implementation on ~2000 generated cases per run, and the decoded expectation "
-                   "values are compared with qiskit Statevector values on random entangled preparations (1-4 qubits) using an independent "
+                   "two-qubit state. The model is run against the implementation on ~2100 generated cases per run (groups are also re-read after "
+                   "every use as register / measurement circuit / _process_outcome and must still equal the model's immutable result), and the decoded expectation "
+                   "values are compared with qiskit Statevector/DensityMatrix values on random entangled preparations (1-4 qubits, some ending in resets) using an independent "
                    "numpy simulator.",
         level_note=STD_NOTE + "No axioms. PauliList.unique()/group_commuting(qubit_wise=True) are oracles: the model receives their actual "
                    "results; their contract (grouping_contract) is evaluated in Coq on every generated case and monitored in Python. "
